@@ -28,7 +28,22 @@ THEOREMS = [P + t for t in (
     "ldexp_faithful_subnormal", "ldexp_overflow_faithful", "ldexp_exact_int",
     "seventeen_digits_suffice", "print17_roundtrip_partial",
     "convert_shortcircuits", "huge_shortcircuit_sound", "tiny_shortcircuit_sound", "log2_table_coarse_check",
+    "scan_number_faithful", "clamp_safe", "scan_exact_when_representable", "convert_faithful", "scanner_plumbing_correct",
 )]
+
+LITERAL_KINDS = ("structured", "structured-hexp", "from-double", "long-edge", "odd-valid", "corpus")
+
+# multi-megabyte literals (never materialised in python / the model: the harness op `bigz` builds head + '0'*n + tail).
+# value known by construction; they probe the exponent clamp `ee < INT32_MAX/40` against the mantissa's own exponent.
+GIANT = [
+    # (nzeros, head, tail, neg, expected magnitude class, description)
+    (53687000, ".", "1e536870915", False, "inf", "10^(536870915-53687001): fraction zeros must not cancel a clamped exponent"),
+    (13421700, "0x.", "1p536870915", False, "inf", "2^(536870915-4*13421701): hex float, ex *= 4"),
+    (13421700, "-0x.", "1p536870915", True, "inf", "negative sign"),
+    (53687000, ".", "1e53687001", False, "one", "10^0 = 1 exactly: exponent just below the clamp cancels exactly"),
+    (1000000, ".", "1e1000001", False, "one", "10^0 = 1 exactly (1 MB)"),
+]
+
 
 ENV = dict(os.environ, ASAN_OPTIONS="detect_leaks=0:abort_on_error=0", UBSAN_OPTIONS="print_stacktrace=1")
 CHUNK = 3000
@@ -143,6 +158,15 @@ def build_cases(ctx, scale):
         cases.append(dict(line="pstr %016x" % u, kind="pstr", bits=u))
     for u in G.int_doubles(rng, int(4000 * scale)):
         cases.append(dict(line="pint %016x" % u, kind="pint", bits=u))
+    # multi-megabyte literals around the exponent clamp (implementation + oracle only)
+    for (nz, head, tail, neg, want, desc) in (GIANT[:4] if scale < 1.5 else GIANT):
+        cases.append(dict(line="bigz %d %s %s" % (nz, head.encode().hex(), tail.encode().hex()), kind="giant", nz=nz, head=head, tail=tail,
+                          neg=neg, want=want, desc=desc))
+    # scanner plumbing state handed to convert(): sign, radix, ex, mantissa digit array (correspondence)
+    lits = [c for c in cases if c["kind"] in LITERAL_KINDS + ("malformed", "invalid") and c["line"].startswith("num ")]
+    for c in lits:
+        if len(c["line"]) < 900 and (c["kind"] != "malformed" or rng.chance(1, 3)):
+            cases.append(dict(line="st " + c["line"][4:], kind="plumbing"))
     # internal state: digit array after the scaling loops
     for _ in range(int(4000 * scale)):
         b = G.pick_radix(rng)
@@ -156,8 +180,13 @@ def build_cases(ctx, scale):
 def oracle(c, res):
     """direct oracle on the implementation's answer `res` for case c; None if fine else reason"""
     k = c["kind"]
-    if k in ("structured", "structured-hexp", "from-double", "long-edge", "odd-valid", "corpus"):
+    if k in LITERAL_KINDS:
         return G.judge(res, c["neg"], c["M"], c["b"], c["E"], c["P"])
+    if k == "giant":
+        want = {"inf": G.INF_BITS, "one": 0x3FF0000000000000}[c["want"]] | ((1 << 63) if c["neg"] else 0)
+        if res != "ok %016x" % want:
+            return "multi-megabyte literal (%s + '0'*%d + %s: %s) must read as %016x" % (c["head"], c["nz"], c["tail"], c["desc"], want)
+        return None
     if k == "invalid" or k == "int-invalid":
         return None if res == "err" else "invalid literal accepted"
     if k == "int":
@@ -259,13 +288,42 @@ def run(ctx):
             ctx.violation("crash:" + cr["line"][:60], {"kind": "crash", "line": cr["line"], "rc": cr["rc"], "stderr": cr["stderr"]},
                           what="implementation crashed / sanitizer report on `%s`" % cr["line"][:100])
     model = None
+    den_checked = den_bad = 0
     if exe:
-        model, mcr = run_chunks(exe, lines)
+        midx = [i for i, c in enumerate(cases) if c["kind"] != "giant"]
+        mres, mcr = run_chunks(exe, [lines[i] for i in midx])
         if mcr:
             broken.append("model driver failed on %r" % mcr[0]["line"][:80])
+        model = [None] * len(cases)
+        for i, r in zip(midx, mres):
+            model[i] = r
+        # the SPEC value `denote` of every literal whose value is known by construction must be that value
+        from fractions import Fraction
+        dl = [c for c in cases if c["kind"] in LITERAL_KINDS and c.get("M") is not None and len(c.get("text", "")) <= 300
+              and abs(c["E"]) <= 3000 and abs(c["P"]) <= 4000]
+        dres, dcr = run_chunks(exe, ["den " + c["line"][4:] for c in dl])
+        for c, r in zip(dl, dres):
+            try:
+                dn, dM, db, dE = [int(x) for x in r.split(" ")]
+                if dM == 0 or c["M"] == 0:
+                    got = Fraction(0) if dM == 0 else Fraction(1)
+                    c = dict(c, E=0, P=0)
+                elif abs(dE) > 20000:
+                    raise ValueError("exponent")
+                else:
+                    got = Fraction(dM) * Fraction(db) ** dE
+                ok = (got == Fraction(c["M"]) * Fraction(c["b"]) ** c["E"] * Fraction(2) ** c["P"]) and bool(dn) == bool(c["neg"])
+            except (ValueError, ZeroDivisionError):
+                ok = False
+            den_checked += 1
+            if not ok:
+                den_bad += 1
+                if den_bad == 1:
+                    broken.append("spec `denote` disagrees with the by-construction value of %r: %r" % (c["text"][:80], r))
+                    ctx.broken.append(broken[-1])
     if impl is not None and model is not None:
         for c, a, b in zip(cases, impl, model):
-            if a != b:
+            if b is not None and a != b:
                 diffs.append({"line": c["line"], "kind": c["kind"], "text": c.get("text"), "impl": a, "model": b})
         if diffs:
             broken.append("correspondence model/impl: %d differing lines, first %r" % (len(diffs), diffs[0]))
@@ -298,7 +356,7 @@ def run(ctx):
     def cls(w):
         return _re.sub(r"\s+", " ", _re.sub(r"-?\b[0-9a-f]*\d[0-9a-f]*\b", "", w.split("(")[0])).strip()
     for c, a, why in fails:
-        key = (c["kind"] if c["kind"] not in ("structured", "structured-hexp", "from-double", "long-edge", "odd-valid", "corpus") else "literal",
+        key = (c["kind"] if c["kind"] not in LITERAL_KINDS else "literal",
                cls(why))
         if key not in seen or len(c["line"]) < len(seen[key][0]["line"]):
             seen[key] = (c, a, why)
@@ -344,6 +402,7 @@ def run(ctx):
         "correspondence_lines": len(lines) if model is not None and impl is not None else 0, "correspondence_diffs": len(diffs),
         "oracle_failures": len(fails), "crashes": len(crashes),
         "nearest_ties_away_checked_normal_range": nearest_checked, "nearest_ties_away_violations": nearest_bad,
+        "denote_spec_vs_construction_checked": den_checked, "denote_spec_vs_construction_bad": den_bad,
     }
     ctx.say("cases %d  kinds %s" % (len(lines), kinds))
     ctx.say("result classes %s  diffs %d  oracle failures %d" % (res_kinds, len(diffs), len(fails)))
@@ -353,7 +412,9 @@ def run(ctx):
         "Log2Within1Ulp (hypothesis of huge/tiny_shortcircuit_sound): libm log2((double) b) is within one ulp of the true logarithm; "
         "the regenerated table is kernel-checked to 2^-14 (log2_table_coarse_check)",
         "libc_fixed0_exact: snprintf %.0f of an integer-valued double prints its exact decimal expansion (compared on every run)",
-        "uint64/uint32 arithmetic in the BigNat routines does not wrap (bounds proved in Strtod/Lemmas for digits < 2^31, factor <= 36^4)",
+        "uint64/uint32 arithmetic in the BigNat routines does not wrap (bounds proved in Strtod/Lemmas for digits < 2^31, factor <= 36^4; "
+        "the products themselves are modelled in N); the int32 exponent is proved wrap-free (scan_number_faithful, last conjunct)",
+        "ClampSafe (hypothesis of scan_number_faithful) is discharged by clamp_safe from the regenerated clamp constants (eeLimit, eeSat)",
     ])
 
 
